@@ -348,6 +348,63 @@ def one_case(src, mexe, idx, seed, tier):
     return recipe, problems, {"corr": corr, "corr_bad": corr_bad, "nops": len(ops), "maxdir": max(len(v) for v in dirs.values()), "dx_rows": dx_rows, "dx_bad": dx_bad}
 
 
+def dx_directed_case(src, mexe, which, k):
+    """indexed directories in the two shapes that random sequences do not reach:
+    wide  - a tree rebuilt by e2fsck -D whose first leaf covers most of the hash space (names more than 2^31 apart in one
+            leaf), then insertions through the library until that leaf splits;
+    tie   - two names with the same (legacy) hash that e2fsck -D places as the last entry of one leaf and the first of the
+            next: the later leaf's bound has to carry the continuation bit"""
+    env = e2v.tool_env(src)
+    T = lambda p_: os.path.join(src, p_)
+    img = os.path.join(WORK, "dxd_%s_%d.img" % (which, k))
+    e2v.sh([T("misc/mke2fs"), "-q", "-F", "-t", "ext4", "-b", "1024", "-O", "^metadata_csum", "-N", "1024", "-E", "hash_seed=01234567-89ab-cdef-0123-456789abcdef", img, "8M"], env=env, timeout=120)
+    names, later = [], []
+    if which == "wide":
+        n0 = [58, 66, 74, 90][k % 4]
+        names = ["w%02d_%07d" % (k, i) for i in range(n0)]
+        later = ["x%02d_%07d" % (k, i) for i in range(70)]
+        pre = "mkdir d\n"
+    else:
+        pair, h = ["c0061817_name", "c0070665_name"], 3469679516
+        i, low = 0, []
+        while len(low) < (list(range(30, 38)) + list(range(64, 71)))[k]:
+            nm = "c%07d_name" % i
+            if extfmt.dirhash(0, nm.encode())[0] < h and nm not in pair:
+                low.append(nm)
+            i += 1
+        high = []
+        while len(high) < 30:
+            nm = "c%07d_name" % i
+            if extfmt.dirhash(0, nm.encode())[0] > h:
+                high.append(nm)
+            i += 1
+        names = low + pair + high
+        pre = "ssv def_hash_version legacy\nmkdir d\n"
+    e2v.sh([T("debugfs/debugfs"), "-w", "-f", "-", img], input=(pre + "".join("write /dev/null /d/%s\n" % n for n in names)).encode(), env=env, timeout=300)
+    e2v.sh([T("e2fsck/e2fsck"), "-fyD", img], env=env, timeout=300)
+    if later:
+        e2v.sh([T("debugfs/debugfs"), "-w", "-f", "-", img], input="".join("write /dev/null /d/%s\n" % n for n in later).encode(), env=env, timeout=300)
+    recipe = {"config": "ext4 1k, no metadata_csum" + (", legacy hash" if which == "tie" else ""), "directed": which, "k": k, "case_index": -1,
+              "ops": ["%d names, e2fsck -fyD%s" % (len(names), ", %d more names" % len(later) if later else "")]}
+    problems = []
+    fs = Fs(img)
+    have = set(n.decode("latin1") for n in listing(fs, lookup(fs, "/d")))
+    if have != set(names + later):
+        problems.append("/d lists %s, expected the reference set" % sorted(have ^ set(names + later))[:4])
+    n_, b_ = dx_audit(src, mexe, img, fs, "/d", env)
+    rc, out = e2v.sh([T("e2fsck/e2fsck"), "-fn", img], env=env, timeout=300)
+    if rc != 0:
+        problems.append("e2fsck -fn exits %d after the sequence: %s" % (rc, " | ".join(l for l in out.split("\n") if "?" in l or "should be" in l)[:300]))
+    shape = None
+    ix = dx_index(fs, lookup(fs, "/d"))
+    if ix and which == "tie":
+        # was the shape reached: the pair split over two leaves
+        where = {nm: lb for lb, nms in ix[2].items() for nm in nms}
+        shape = where.get(b"c0061817_name") != where.get(b"c0070665_name")
+    os.unlink(img)
+    return recipe, problems, {"corr": 0, "corr_bad": [], "nops": len(names) + len(later), "maxdir": len(names) + len(later), "dx_rows": n_, "dx_bad": b_, "shape": shape}
+
+
 def hash_tie(src, seed, n):
     """the reader's own directory hashes (lib/extfmt.py dirhash: legacy / half_md4 / tea x signed / unsigned char) against
     debugfs dx_hash, which calls the library's ext2fs_dirhash2 with the filesystem's algorithm, flags and seed"""
@@ -403,6 +460,12 @@ def run(res, replay=None):
     idxs = [json.load(open(replay))["recipe"]["case_index"]] if replay else list(range(n))
     with concurrent.futures.ThreadPoolExecutor(12) as ex:
         outs = list(ex.map(lambda i: one_case(src, mexe, i, seed, tier), idxs))
+        if not replay or idxs == [-1]:
+            outs = [o for o in outs if o[0].get("case_index") != -1]
+            outs += list(ex.map(lambda k: dx_directed_case(src, mexe, "wide", k), range(4)))
+            tie = list(ex.map(lambda k: dx_directed_case(src, mexe, "tie", k), range(15)))
+            outs += tie
+            res.cov["directed_tie_shapes_reached"] = sum(1 for t in tie if t[2].get("shape"))
     bad, cbad, xbad = [], [], []
     corr = ops = dxr = 0
     maxdir = 0
